@@ -30,7 +30,8 @@ GStep(t) ==
   \/ ISet(t) /\ Log(t, "ISet", "", 0)
   \/ CPub(t) /\ Log(t, "Pub", "", 0)
   \/ CChk(t) /\ Log(t, "CChk", "", 0)
-  \/ VChk(t) /\ Log(t, "VChk", "", 0)
+  \/ VChk(t) /\ Log(t, IF pc'[t] = "v_chk2" THEN "VChkV" ELSE "VChk", "", 0)    \* VChkV: the trigger is read 1, rngIsValid goes on
+  \/ VChk2(t) /\ Log(t, "VChk", "", 0)
   \/ Lock(t) /\ Log(t, "Lock", "", 0)
   \/ Body(t) /\ Log(t, "Body", "", 0)
   \/ Unlock(t) /\ Log(t, "Unlock", "", 0)
